@@ -87,6 +87,28 @@ def check_protocol(ck, R):
                   "obj.%s records the merged index that is serialised" % a if okm else
                   "obj.%s records `%s` (own keys only) while `%s` is what is serialised: a child of this still-in-memory partition inherits "
                   "only its own keys, the grandparent's keys are silently dropped from the stored child" % (a, A.norm(s_.value), merged), fa.where(s_))
+    # ... and it is recorded once it is COMPLETE: recording the (still empty) dict first and filling it
+    # afterwards leaves a partition that claims to be serialised with a partial index when a write fails
+    # half-way (or while another thread stores a child of it): the child is stored without the missing keys
+    if ser and rec:
+        merged = A.norm(ser[0].args[0]) if ser[0].args else None
+        for (a, s_) in rec:
+            later = []
+            for i in fa.nodes(s_):
+                for j in fa.cfg.reach([i], include_start=False):
+                    nd = fa.cfg.node(j)
+                    if nd.kind != "stmt" or nd.ast is None:
+                        continue
+                    for x in A.walk_local(nd.ast):
+                        if isinstance(x, ast.Subscript) and isinstance(x.ctx, ast.Store) and A.norm(x.value) == merged:
+                            later.append(nd.ast)
+                        if isinstance(x, ast.Call) and isinstance(x.func, ast.Attribute) and x.func.attr in ("update", "setdefault", "pop") and A.norm(x.func.value) == merged:
+                            later.append(nd.ast)
+            ck.ob(R, fa.key(s_, "recorded-when-complete"), not later,
+                  "obj.%s is recorded after the last write to the merged index" % a if not later else
+                  "obj.%s is recorded before the merged index is filled (`%s` runs afterwards): if a value fails to be written, or another thread "
+                  "stores a child of this partition meanwhile, the object passes for serialised with a partial index and the child loses the "
+                  "missing keys" % (a, A.short(later[0], 50)), fa.where(s_))
     # the merged index is a fresh mapping, never an alias of a parent's live index
     idx_defs = [s_ for s_ in fa.stmts(ast.Assign) if any(isinstance(t, ast.Name) and ser and t.id == A.norm(ser[0].args[0]) for t in s_.targets)]
     okfresh = bool(idx_defs) and all(A.norm(s_.value) in ("dict()", "{}") for s_ in idx_defs)
@@ -350,6 +372,9 @@ def check_truthiness(ck, R):
 def check(ck):
     from .memo import check_new_memo_tables
     ck.run(check_new_memo_tables, ck, "C17.M1", ('partition', 'storage_base', 'storage_filesystem'))
+    from .c07 import check_who_may_delete
+    ck.rule("C17.R7", "partitions never delete stored objects (who may delete, shared with C07.R4)", 3)
+    ck.run(check_who_may_delete, ck, "C17.R7")
     ck.run(check_truthiness, ck, "C17.R4")
     from .c11 import check_versioned_key_codec
     ck.rule("C17.R6", "index entries' versioned keys are written as key#version and split at the last '#' (partition keys may contain '#')", 2)
